@@ -180,6 +180,10 @@ func compositions(b []byte, maxPieces int) [][][]byte {
 func chunkString(cs [][]byte) string {
 	s := make([]string, len(cs))
 	for i, c := range cs {
+		if len(c) > 40 {
+			s[i] = fmt.Sprintf("<%d bytes %q…>", len(c), c[:8])
+			continue
+		}
 		s[i] = strconv.Quote(string(c))
 	}
 	return "[" + strings.Join(s, ",") + "]"
